@@ -48,12 +48,21 @@ func sentinelStmts(n, i int, fault string) string {
 	return sb.String()
 }
 
+// tokens that span lines (a comment, a string, a {{ }} block, a directive's arguments) before the statements
+const multiLinePrelude = "PAGE-SENTINEL-first\n{{-- a comment\nover three\nlines --}}\n{{ \"x\ny\".len() }}{{\n 1\n}}\n@if(\n true\n)PAGE-SENTINEL-in-if@end {{-- é\n中 --}}\n"
+
 var respPlaces = []respPlace{
 	{"top-level", func(n, i int, fault string) (map[string]string, string) {
 		return map[string]string{"page.tw": sentinelStmts(n, i, fault)}, "page"
 	}},
 	{"after-crlf-lines", func(n, i int, fault string) (map[string]string, string) {
 		return map[string]string{"page.tw": "PAGE-SENTINEL-first\r\nPAGE-SENTINEL-second\r\n" + sentinelStmts(n, i, fault)}, "page"
+	}},
+	{"after-multi-line-tokens", func(n, i int, fault string) (map[string]string, string) {
+		return map[string]string{"page.tw": multiLinePrelude + sentinelStmts(n, i, fault)}, "page"
+	}},
+	{"name-ending-in-extension", func(n, i int, fault string) (map[string]string, string) {
+		return map[string]string{"page.tw": "PAGE-SENTINEL-other", "report.tw.tw": sentinelStmts(n, i, fault), "report.tw": "PAGE-SENTINEL-near-miss {{ 1 }}"}, "report.tw"
 	}},
 	{"inside-loop-pass", func(n, i int, fault string) (map[string]string, string) {
 		// fails in pass i of n
@@ -399,7 +408,9 @@ func init() {
 					files, name := pl.build(cb.n, cb.pos, fault)
 					switch errPageModes[cb.mode] {
 					case "valid":
-						files["errors/oops.tw"] = customPageSource
+						// (a page that works on its own: it assigns names of its own choosing - the data of the failed call
+						// happens to hold the same names with other types - and reads none)
+						files["errors/oops.tw"] = "{{ zero = \"z\" }}{{ rows = 2.5 }}{{ user = [1] }}" + customPageSource
 					case "failing":
 						files["errors/oops.tw"] = "CUSTOM-SENTINEL start {{ 1 / 0 }}"
 					}
@@ -502,10 +513,19 @@ func init() {
 					if m := fmtMarker(body); m != "" {
 						c.Violation(sig+":debug-detail-garbled", fmt.Sprintf("the debug page holds %q: a finished message was used as a format string", m), desc)
 					}
-					if pl.name == "after-crlf-lines" && !strings.Contains(fault, "@each") {
-						abs, _ := filepath.Abs(filepath.Join(dir, "page.tw"))
-						if want := fmt.Sprintf("%s:%d", abs, 3+cb.pos); !strings.Contains(body, want) {
-							c.Violation(sig+":debug-line", fmt.Sprintf("the fault stands on line %d (after two CRLF lines); the debug page does not show %q", 3+cb.pos, want), desc)
+					lineBase, file := 0, "page.tw"
+					switch pl.name {
+					case "after-crlf-lines":
+						lineBase = 3
+					case "after-multi-line-tokens":
+						lineBase = 1 + strings.Count(multiLinePrelude, "\n")
+					case "name-ending-in-extension":
+						lineBase, file = 1, "report.tw.tw"
+					}
+					if lineBase > 0 && !strings.Contains(fault, "@each") {
+						abs, _ := filepath.Abs(filepath.Join(dir, file))
+						if want := fmt.Sprintf("%s:%d", abs, lineBase+cb.pos); !strings.Contains(body, want) {
+							c.Violation(sig+":debug-line", fmt.Sprintf("the fault stands on line %d of %s; the debug page does not show %q", lineBase+cb.pos, file, want), desc)
 						}
 					}
 					_, fe := tpl.String(name, data)
